@@ -141,9 +141,9 @@ impl<'a> LoweringManager<'a> {
     };
     let mut instructions =
       function.body.iter().flat_map(|it| instance.lower_stmt(it)).collect_vec();
-    let return_value_expr = instance.lower_expr(&function.return_value);
     // Wrap return value with ref.as_non_null for reference types since locals are nullable
     let return_type = instance.type_cx.lower(&function.type_.return_type);
+    let return_value_expr = instance.lower_expr_assigned_to(&function.return_value, return_type);
     let return_value_expr =
       if matches!(return_type, wasm::Type::Int31 | wasm::Type::Eq | wasm::Type::Reference(_)) {
         wasm::InlineInstruction::RefAsNonNull(Box::new(return_value_expr))
@@ -361,8 +361,8 @@ impl<'a> LoweringManager<'a> {
         let mut s2 = s2.iter().flat_map(|it| self.lower_stmt(it)).collect_vec();
         for (n, t, e1, e2) in final_assignments {
           let wasm_type = self.type_cx.lower(t);
-          let e1 = self.lower_expr(e1);
-          let e2 = self.lower_expr(e2);
+          let e1 = self.lower_expr_assigned_to(e1, wasm_type);
+          let e2 = self.lower_expr_assigned_to(e2, wasm_type);
           s1.push(wasm::Instruction::Inline(self.set(*n, wasm_type, e1)));
           s2.push(wasm::Instruction::Inline(self.set(*n, wasm_type, e2)));
         }
@@ -492,9 +492,9 @@ impl<'a> LoweringManager<'a> {
       }
       lir::Statement::LateInitAssignment { name, assigned_expression } => {
         // For late init, the type was already declared, so we just get it from the expression
-        let assigned = self.lower_expr(assigned_expression);
         // The type should already be in local_variables from LateInitDeclaration
         let t = self.local_variables.get(name).copied().unwrap_or(wasm::Type::Int32);
+        let assigned = self.lower_expr_assigned_to(assigned_expression, t);
         vec![wasm::Instruction::Inline(self.set(*name, t, assigned))]
       }
       lir::Statement::LateInitDeclaration { name, type_ } => {
@@ -554,6 +554,29 @@ impl<'a> LoweringManager<'a> {
           },
         ))]
       }
+    }
+  }
+
+  /// Lowers an expression that is assigned to a variable of the given type. The type-erased `_this`
+  /// of a method used as a value of its struct type (`if c { this } else { .. }`, `return this`)
+  /// needs the downcast like every other typed use.
+  fn lower_expr_assigned_to(
+    &mut self,
+    e: &lir::Expression,
+    target_type: wasm::Type,
+  ) -> wasm::InlineInstruction {
+    let lowered = self.lower_expr(e);
+    match (e, target_type) {
+      (lir::Expression::Variable(n, _), wasm::Type::Reference(type_ref))
+        if matches!(self.local_variables.get(n), Some(wasm::Type::Eq))
+          && super::mir_tail_recursion_rewrite::is_context_parameter(self.type_cx.heap, *n) =>
+      {
+        wasm::InlineInstruction::Cast {
+          pointer_type: lir::Type::Id(type_ref),
+          value: Box::new(lowered),
+        }
+      }
+      _ => lowered,
     }
   }
 
